@@ -69,10 +69,10 @@ _code_tables = {}
 
 
 def code_table(code):
-    """(line -> frozenset(attr names), offset -> (attr name, is_store))"""
+    """(line -> frozenset(attr names), offset -> (attr name, is_store), line -> frozenset(stored attr names))"""
     t = _code_tables.get(code)
     if t is None:
-        by_line, by_off = collections.defaultdict(set), {}
+        by_line, by_off, st_line = collections.defaultdict(set), {}, collections.defaultdict(set)
         line = code.co_firstlineno
         last_cont, age = None, 99      # container attribute loaded most recently (for GET_ITER / FOR_ITER)
         it_pending = "<iter>"
@@ -83,6 +83,8 @@ def code_table(code):
             if ins.opname in ATTR_OPS:
                 by_line[line].add(ins.argval)
                 by_off[ins.offset] = (ins.argval, ins.opname in ("STORE_ATTR", "DELETE_ATTR"))
+                if ins.opname in ("STORE_ATTR", "DELETE_ATTR"):
+                    st_line[line].add(ins.argval)
                 if ins.argval in CONTAINERS:
                     last_cont, age = ins.argval, 0
             elif ins.opname == "GET_ITER":
@@ -92,7 +94,7 @@ def code_table(code):
                 it_pending = it_name
             elif ins.opname == "FOR_ITER":
                 by_off[ins.offset] = (it_pending, False)
-        t = ({k: frozenset(v) for k, v in by_line.items()}, by_off)
+        t = ({k: frozenset(v) for k, v in by_line.items()}, by_off, {k: frozenset(v) for k, v in st_line.items()})
         _code_tables[code] = t
     return t
 
@@ -300,6 +302,8 @@ class Scheduler:
         self.accessors = collections.defaultdict(set)
         self.res_users = collections.defaultdict(set)  # resource -> thread names
         self.guards = collections.defaultdict(set)     # lock -> attributes / "@resource" touched while it is held
+        self.guarded = {}            # attribute -> lock that is supposed to protect it (lockset check)
+        self.unlocked = set()        # (attribute, function, "read" | "write") accessed without that lock
         self.lock_edges = set()      # (held lock, acquired lock)
         self.keep_events = keep_events
         self.live = 0                # started and unfinished managed threads
@@ -527,8 +531,18 @@ class Scheduler:
         return True
 
     # ---- tracing (called from the sys.monitoring callbacks, or from the settrace fallback)
+    def _lockset(self, code, name, is_store):
+        lk = self.guarded.get(name)
+        if lk is not None and self.live >= 2 and lk not in self.cur.held:
+            self.unlocked.add((name, code.co_name, "write" if is_store else "read"))
+
     def on_line(self, code, line):
-        names = code_table(code)[0].get(line, ())
+        tab = code_table(code)
+        names = tab[0].get(line, ())
+        if self.guarded and names:
+            for n in names:
+                if n in self.guarded:
+                    self._lockset(code, n, n in tab[2].get(line, ()))
         if self.audit and names and self.live >= 2 and self.explore:
             me = self.cur.name
             for n in names:
@@ -557,6 +571,8 @@ class Scheduler:
         if ent is None:
             return False
         name, is_store = ent
+        if name in self.guarded:
+            self._lockset(code, name, is_store)
         if self.audit and self.live >= 2 and self.explore:
             self.accessors[name].add(self.cur.name)
             for l in self.cur.held:
